@@ -183,9 +183,8 @@ class PDFPage:
                 log.warning(warning_msg)
         # Process each page contained in the document.
         for pageno, page in enumerate(cls.create_pages(doc)):
-            if pagenos and (pageno not in pagenos):
-                continue
-            yield page
+            if not pagenos or pageno in pagenos:
+                yield page
             if maxpages and maxpages <= pageno + 1:
                 break
 
